@@ -2,6 +2,7 @@ package exporter
 
 import (
 	"fmt"
+	"sort"
 	"strings"
 
 	proto "github.com/anz-bank/sysl/pkg/sysl"
@@ -40,7 +41,13 @@ func makeTypeExporter(logger *logrus.Logger) *TypeExporter {
 }
 
 func (t *TypeExporter) populateTypes(syslTypes map[string]*proto.Type, swaggerTypes spec.Definitions) error {
-	for typeName, dataType := range syslTypes {
+	typeNames := make([]string, 0, len(syslTypes))
+	for typeName := range syslTypes {
+		typeNames = append(typeNames, typeName)
+	}
+	sort.Strings(typeNames)
+	for _, typeName := range typeNames {
+		dataType := syslTypes[typeName]
 		typeSchema := spec.Schema{}
 		if t.isComposite(dataType) {
 			t.parseComposite(dataType, &typeSchema)
@@ -67,7 +74,13 @@ func (t *TypeExporter) populateTypes(syslTypes map[string]*proto.Type, swaggerTy
 		} else if valueMap.Format == "relation" {
 			memberTypes = dataType.GetRelation().GetAttrDefs()
 		}
-		for attK, attV := range memberTypes {
+		memberNames := make([]string, 0, len(memberTypes))
+		for attK := range memberTypes {
+			memberNames = append(memberNames, attK)
+		}
+		sort.Strings(memberNames)
+		for _, attK := range memberNames {
+			attV := memberTypes[attK]
 			elementSchema := spec.Schema{}
 			if t.isComposite(attV) {
 				t.parseComposite(attV, &elementSchema)
